@@ -616,20 +616,10 @@ SUBSCRIPTS = "₀₁₂₃₄₅₆₇₈₉"
 def t_subscripts(cx):
     """`lat₂=45` is a spelling of `lat_2=45`: every replacement of `normalize` whose pattern contains a subscript digit
     writes the same digit, behind an underscore, in its place (₂ -> _2, never _1)."""
-    name = "<T as token::Tokenize>::normalize"
-    f = cx.f.fn(name)
+    from rules.macros import normalize_pairs
+    f = cx.f.fn("<T as token::Tokenize>::normalize")
     n = 0
-    seen = set()
-    for bb, t in f.calls():
-        if (f.callee(t) or "").rsplit("::", 1)[-1] not in ("replace", "replacen"):
-            continue
-        a = f.arg_terms(bb)
-        if len(a) < 3:
-            continue
-        p, r = mir.strip_refs(a[1]), mir.strip_refs(a[2])
-        if not (p[0] == "const" and isinstance(p[2], tuple) and r[0] == "const" and isinstance(r[2], tuple)):
-            continue
-        pat, rep = str(p[2][1]), str(r[2][1])
+    for pat, rep in normalize_pairs(cx):
         digs = [ch for ch in pat if ch in SUBSCRIPTS]
         if not digs:
             continue
@@ -637,10 +627,9 @@ def t_subscripts(cx):
         want = pat
         for ch in digs:
             want = want.replace(ch, "_%d" % SUBSCRIPTS.index(ch))
-        seen.add(digs[0])
         ok = rep == want
         cx.ob("T-SUBSCRIPTS", "normalize/%s" % ("sub%d" % SUBSCRIPTS.index(digs[0])), ok,
               "%r is written as %r" % (pat, rep) if ok else
               "normalize rewrites the subscript spelling %r as %r (expected %r): `lat₂=45` then sets another index and "
-              "the last-wins rule overwrites it" % (pat, rep, want), cx.where(t["span"]))
+              "the last-wins rule overwrites it" % (pat, rep, want), cx.where(f.d["span"]))
     cx.count("T-SUBSCRIPTS", "subscript_rules", n)
